@@ -140,7 +140,7 @@ PROPS = {
         rule=("matrix: constructors x 14 permission sets x {remote,local} x 3-4 (quick) / 12-13 (thorough) values; rapid: random constructor, random subset of {pr,pw,ev,hd,wr}, optional prior application value, typed or arbitrary JSON value. "
               "Non-trivial: the permission under test is absent (no pr, or no pw on the remote path). Distinct by (constructor, perms, path, values)."),
         assumptions=["a characteristic whose permissions are overridden to exclude read starts without a value"],
-        essential_classes=["missing:pw/remote", "missing:pr/remote", "missing:pr/local", "all-perms/remote", "http:put/missing-pw", "http:get/missing-pr", "http:subscribe/missing-ev", "http:event/missing-ev", "http:event/delivered", "http:event/after-rejected-subscription"],
+        essential_classes=["missing:pw/remote", "missing:pr/remote", "missing:pr/local", "all-perms/remote", "http:put/missing-pw", "http:get/missing-pr", "http:subscribe/missing-ev", "http:event/missing-ev", "http:event/delivered", "http:event/after-rejected-subscription", "http:event/twin-without-ev"],
         jobs=[
             dict(test="TestC11Matrix", kind="plain", shards={Q: 4, T: 8}),
             dict(test="TestC11Prop", kind="rapid", checks={Q: 1000, T: 40000}, shards=8),
@@ -197,18 +197,19 @@ PROPS = {
     ),
     "C19": dict(
         pkg="c19", level="fault_enumeration",
-        technique="crash-point fault injection (verif hooks os.Exit the writing child process at every point between the file operations of a write), enumerated exhaustively per generated (old value, new value, other keys) case; old-or-new oracle on a fresh store",
+        technique="crash-point fault injection (verif hooks os.Exit the writing child process at every point between the file operations of a write), enumerated exhaustively per generated (old value, new value, other keys) case; second, hook-independent mode: the write is traced with strace and every prefix of its file-system calls is replayed on a copy of the pre-state; old-or-new oracle on a fresh store",
         level_text=("For each generated case the operation is first run to completion in a child process to count its crash points, then re-run once per crash point on a fresh copy of the pre-state with the process ended by os.Exit exactly there. "
                     "A new store opened on the directory must return the previous value or the new value in full for the written key, every other key unchanged, and the pairing database must still load. Crash points are exhaustive per case; the (old, new) pairs are generated (absent, empty, shorter, equal, longer)."),
         level_note="Trusted: the crash-point hooks sit between all file-system operations of fileStorage.Set (a run that passes zero points is reported inconclusive). Process kill only: power-loss ordering (missing fsync) cannot be observed inside one kernel; a single write() is treated as indivisible.",
         rule=("rapid cases: op in {Storage.Set, Database.SaveEntity}, key from hc's own keys, old value absent/0..4096 bytes, new value 0..4096 bytes, 0..3 other keys; every crash point of each case is executed. "
               "evaluations counts cases; coverage.extra.crash_points_explored counts child executions. Non-trivial: old value present and of a different length than the new one. Distinct by (op, key, old, new)."),
         assumptions=["a crash is a process kill between two file-system calls"],
-        essential_classes=["op:set", "op:save-entity", "op:transport-start", "transport:structure-changed", "old:absent", "new-shorter", "new-longer", "regress"],
+        essential_classes=["op:set", "op:save-entity", "op:transport-start", "transport:structure-changed", "old:absent", "new-shorter", "new-longer", "regress"],  # op:set(traced) is reported but not essential: strace may be unavailable in a sandbox
         jobs=[
             dict(test="TestC19Regress", kind="plain"),
             dict(test="TestC19Prop", kind="rapid", checks={Q: 12, T: 300}, shards=12),
             dict(test="TestC19Transport", kind="rapid", checks={Q: 3, T: 40}, shards=4),
+            dict(test="TestC19Trace", kind="rapid", checks={Q: 4, T: 150}, shards=4),
         ],
     ),
     "C04": dict(
@@ -282,10 +283,10 @@ PROPS = {
         level_text=("A started transport serves a bridge whose string values carry per-case canary tokens; one controller is paired in the database, the attacker is not. Rapid drives a state machine of attacker requests to every protected endpoint (plaintext; after forged or failed pair-setup / pair-verify fragments; sealed under the keys the attacker can derive from its own pair-verify start), "
                     "legitimate reads, writes, subscriptions and reconnects, and application-side value changes. After every attacker request: the reply is a refusal (status >= 400 or closed connection) without canary, listing or value; every application value, callback counter and the entity files are unchanged; no EVENT ever arrives on an attacker connection. "
                     "The legitimate controller's requests must be served with the model's values in the same history."),
-        level_note="Trusted: refctl; the canary/keyword disclosure scan. /identify is unprotected by specification and not treated as protected. Reuse of a closed verified connection's source port by a new connection is not generated. For sealed requests the harness waits 120 ms of silence to conclude that nothing was served (a miss, never an alarm, if the accessory answered later).",
+        level_note="Trusted: refctl; the canary/keyword disclosure scan. /identify is unprotected by specification and not treated as protected. Reuse of a reset verified connection's source address by a new connection is generated (a race the harness provokes but does not own). For sealed requests the harness waits 120 ms of silence to conclude that nothing was served (a miss, never an alarm, if the accessory answered later).",
         rule=("rapid state machine, about 30 actions per history over 11 action kinds; protected requests drawn from 12 request shapes. Non-trivial: at least one attacker request to a protected endpoint issued while the legitimate controller is verified on another connection. Distinct by history."),
         assumptions=["the attacker knows neither the setup code nor a paired long-term secret key"],
-        essential_classes=["/accessories/plaintext", "/characteristics:get/plaintext", "/characteristics:put/plaintext", "/characteristics:subscribe/plaintext", "/pairings:add/plaintext", "/pairings:remove/plaintext", "/resource/plaintext", "legit-served", "app-change", "pair-verify-forged-finish", "pair-setup-fragment", "replayed-sniffed-verify", "flood-during-legit-verify"],
+        essential_classes=["/accessories/plaintext", "/characteristics:get/plaintext", "/characteristics:put/plaintext", "/characteristics:subscribe/plaintext", "/pairings:add/plaintext", "/pairings:remove/plaintext", "/resource/plaintext", "legit-served", "app-change", "pair-verify-forged-finish", "pair-setup-fragment", "replayed-sniffed-verify", "flood-during-legit-verify", "source-address-reuse"],
         jobs=[
             dict(test="TestC01Prop", kind="rapid", checks={Q: 8, T: 1200}, shards=16),
         ],
